@@ -101,6 +101,35 @@ theorem C08_source_shape :
        ("not self._slices_in_data(data, slices)", "raise OutOfBounds")] := by
   refine ⟨?_, ?_, ?_, ?_, ?_, ?_, ?_, ?_⟩ <;> decide
 
+/-- **Default stop rule and deprecated wrappers.** The four public methods take `stop_rule` last with the default
+`SliceMode.Exclusive`; `retrieve_data` / `retrieve_feature_data` return the same method with the same arguments and
+no stop rule — so a call without a stop rule, and the deprecated spelling, is the `Exclusive` result (the region
+theorems then apply with `stop = .exclusive`). -/
+theorem C08_default_stop_rule (t : TagDesc) (mt : MTagDesc) (refs : List RefEnt) (feats : List FeatEnt) (key : Key)
+    (posidx : Nat) :
+    Gen.defaultStopRules =
+      [("Tag.tagged_data(refidx, stop_rule)", "Exclusive"), ("Tag.feature_data(featidx, stop_rule)", "Exclusive"),
+       ("MultiTag.tagged_data(posidx, refidx, stop_rule)", "Exclusive"),
+       ("MultiTag.feature_data(posidx, featidx, stop_rule)", "Exclusive")] ∧
+    Gen.retrieveWrappers =
+      [("Tag.retrieve_data(refidx)", "self.tagged_data(refidx)"),
+       ("Tag.retrieve_feature_data(featidx)", "self.feature_data(featidx)"),
+       ("MultiTag.retrieve_data(posidx, refidx)", "self.tagged_data(posidx, refidx)"),
+       ("MultiTag.retrieve_feature_data(posidx, featidx)", "self.feature_data(posidx, featidx)")] ∧
+    Tag.retrieveData t refs key = Tag.taggedDataBy t refs key .exclusive ∧
+    Tag.retrieveFeatureData t feats key = Tag.featureDataBy t feats key .exclusive ∧
+    MultiTag.retrieveData mt refs posidx key = MultiTag.taggedDataBy mt refs posidx key .exclusive ∧
+    MultiTag.retrieveFeatureData mt feats posidx key = MultiTag.featureDataBy mt feats posidx key .exclusive := by
+  have h1 : defaultStop? "Tag.tagged_data(refidx, stop_rule)" = some .exclusive := by decide
+  have h2 : defaultStop? "Tag.feature_data(featidx, stop_rule)" = some .exclusive := by decide
+  have h3 : defaultStop? "MultiTag.tagged_data(posidx, refidx, stop_rule)" = some .exclusive := by decide
+  have h4 : defaultStop? "MultiTag.feature_data(posidx, featidx, stop_rule)" = some .exclusive := by decide
+  refine ⟨by decide, by decide, ?_, ?_, ?_, ?_⟩
+  · simp only [Tag.retrieveData, withDefaultStop, h1]
+  · simp only [Tag.retrieveFeatureData, withDefaultStop, h2]
+  · simp only [MultiTag.retrieveData, withDefaultStop, h3]
+  · simp only [MultiTag.retrieveFeatureData, withDefaultStop, h4]
+
 /-! ## one axis, units -/
 
 /-- **Units.** When the tag unit relates to the dimension's unit (`UnitRel`), `_scale_position` multiplies
